@@ -191,6 +191,7 @@ func evalReuse(c *reuseCase, rep reporter) bool {
 		case err != nil:
 			return rep("C07/reuse/sender/"+trans+"/error", fmt.Sprintf("step %d on a re-used Sender (%s, %s): %v; case %s", i, kn, trans, err, c))
 		default:
+			enc = take(enc)
 			if !bytes.Equal(enc, renc) {
 				return rep("C07/reuse/sender/"+trans+"/enc", fmt.Sprintf("step %d on a re-used Sender (%s): enc %s, RFC 9180 %s; case %s", i, kn, vlib.Hex(enc), vlib.Hex(renc), c))
 			}
@@ -250,6 +251,7 @@ func evalReuse(c *reuseCase, rep reporter) bool {
 				ptIn, aadIn := ar.set("pt", msg), ar.set("aad", []byte{byte(i), 0x55})
 				ar.snapshot()
 				ct, err := sl.Seal(ptIn, aadIn)
+				ct = take(ct)
 				if err != nil {
 					return rep("C07/reuse/seal-error", fmt.Sprintf("%v; case %s", err, c))
 				}
@@ -264,6 +266,7 @@ func evalReuse(c *reuseCase, rep reporter) bool {
 				ar.set("pt", bytes.Repeat([]byte{0}, len(msg))) // the plaintext buffer is wiped before the ciphertext is opened
 				ar.snapshot()
 				pt, err := op.Open(ctIn, aadIn)
+				pt = take(pt)
 				if err != nil || !bytes.Equal(pt, msg) {
 					return rep("C07/reuse/"+trans+"/roundtrip", fmt.Sprintf("step %d: the re-used Receiver does not open what the re-used Sender sealed: %v; case %s", i, err, c))
 				}
